@@ -1119,6 +1119,9 @@ func (cfg *config) updateRepeat() {
 	if cfg.repeatFrom == nil {
 		return
 	}
+	// No act is repeated unless the current regexp matches one in the
+	// current storyline.
+	cfg.repeatActNum = 0
 	for i, part := range cfg.storyLine {
 		// Find the repetition point.
 		if cfg.repeatFrom.MatchString(part) {
